@@ -15,8 +15,8 @@ Lemma find_comment tokens :
   = first_comment (comments_of tokens).
 Proof.
   unfold first_comment, comments_of. induction tokens as [|[b s] t IH]; [reflexivity|].
-  cbn [find filter fst snd]. destruct b; cbn [andb map find].
-  - unfold starts_with_hash at 1. destruct (match s with c_ :: _ => c_ =? 35 | [] => false end); [reflexivity | exact IH].
+  cbn [find filter fst snd]. destruct b; cbn [andb map find snd].
+  - unfold starts_with_hash at 1. destruct s as [|c s']; [exact IH|]. destruct (c =? 35); [reflexivity | exact IH].
   - exact IH.
 Qed.
 
